@@ -12,7 +12,12 @@
 //! mode `run`:    the real `MockExchange::run` task is driven by a real `MockExecution` client
 //!     under tokio's paused clock; responses come back through the oneshot channels, notifications
 //!     through the broadcast account stream, the ledger is observed through `fetch_balances`,
-//!     `fetch_trades` and `account_snapshot`.
+//!     `fetch_trades` and `account_snapshot`. An open-order request may be *abandoned* (`"drop":
+//!     1|2`): the oneshot receiver is dropped after the request is queued and before the exchange
+//!     task handles it (1: the request is built with `MockExchangeRequest::open_order` and pushed
+//!     into the client's `request_tx`; 2: the future of `MockExecution::open_order` is polled once
+//!     and dropped - a client-side timeout). Its answer is not observable (`out` = "lost"); its
+//!     effects on ledger, fills, ids and notifications must be those of an answered request.
 //!
 //! One NDJSON line per request: the request, the answer, the query result and `post` = the
 //! projected ledger. Amounts are integer 1/100 units, times are ms offsets from the harness epoch.
@@ -25,7 +30,7 @@ use barter_execution::{
         mock::{MockExecution, MockExecutionClientConfig, MockExecutionConfig},
     },
     error::{ApiError, UnindexedOrderError},
-    exchange::mock::MockExchange,
+    exchange::mock::{MockExchange, request::MockExchangeRequest},
     order::{
         Order, OrderKey, OrderKind, TimeInForce,
         id::{ClientOrderId, OrderId, StrategyId},
@@ -252,11 +257,12 @@ enum Sut {
     Direct {
         ex: Box<MockExchange>,
         lat: i64,
-        _keep: (mpsc::UnboundedSender<barter_execution::exchange::mock::request::MockExchangeRequest>, broadcast::Receiver<UnindexedAccountEvent>),
+        _keep: (mpsc::UnboundedSender<MockExchangeRequest>, broadcast::Receiver<UnindexedAccountEvent>),
     },
     Run {
         client: MockExecution<Clock>,
         stream: BoxStream<'static, UnindexedAccountEvent>,
+        lat: i64,
         task: tokio::task::JoinHandle<()>,
     },
 }
@@ -302,7 +308,7 @@ impl Sut {
                 });
                 let stream = client.account_stream(&[], &[]).await.expect("account stream");
                 let task = tokio::spawn(MockExchange::new(config, request_rx, event_tx, instruments()).run());
-                Sut::Run { client, stream, task }
+                Sut::Run { client, stream, lat: i(init, "lat"), task }
             }
             m => usage(&format!("unknown mode {m}")),
         }
@@ -350,9 +356,29 @@ impl Sut {
                     o => usage(&format!("unknown op {o}")),
                 }
             }
-            Sut::Run { client, stream, task } => {
+            Sut::Run { client, stream, lat, task } => {
                 CLIENT_CLOCK_MS.store(t, Ordering::SeqCst);
+                let abandon = r.get("drop").and_then(|d| d.as_i64()).unwrap_or(0);
                 let mut answer = match op {
+                    "open" if abandon > 0 => {
+                        let req = request_of(r, n);
+                        if abandon == 1 {
+                            let (response_tx, response_rx) = tokio::sync::oneshot::channel();
+                            drop(response_rx);
+                            let _ = client.request_tx.send(MockExchangeRequest::open_order(client.time_request(), response_tx, req));
+                        } else {
+                            let req_ref = OrderRequestOpen {
+                                key: OrderKey { exchange: req.key.exchange, instrument: &req.key.instrument, strategy: req.key.strategy.clone(), cid: req.key.cid.clone() },
+                                state: req.state.clone(),
+                            };
+                            let mut fut = Box::pin(client.open_order(req_ref));
+                            let _ = futures::poll!(fut.as_mut()); // queues the request, then waits
+                            drop(fut); // the requester stops waiting before the exchange task ran
+                        }
+                        // nobody awaits an answer: let the exchange handle it and its latency pass
+                        tokio::time::sleep(std::time::Duration::from_millis(*lat as u64 + 1)).await;
+                        Answer { out: json!("lost"), why: json!("-"), id: json!(-1), filled: json!(0), rt: json!(-1), res: empty_res(), notifs: vec![] }
+                    }
                     "open" => {
                         let req = request_of(r, n);
                         let req_ref = OrderRequestOpen {
@@ -462,6 +488,7 @@ impl Segment {
         let mut line = json!({
             "a": op_of(r), "t": i(r, "t"), "side": s(r, "side"), "p": i(r, "p"), "q": i(r, "q"),
             "instr": s(r, "instr"), "kind": s(r, "kind"), "since": i(r, "since"),
+            "drop": r.get("drop").and_then(|d| d.as_i64()).unwrap_or(0),
         });
         let served = if self.dead { Err("the exchange is gone after an earlier panic".to_string()) } else { self.sut.serve(r, self.n).await };
         let post = match served {
@@ -594,11 +621,23 @@ async fn main() {
     let mut segments = 0usize;
     match args.cmd.as_str() {
         "run" => {
+            // --abandon K (mode run): every K-th open-order request of the scenarios is abandoned
+            let every = if mode == "run" { args.usize("abandon", 0) } else { 0 };
+            let mut opens = 0usize;
             for scn in read_ndjson(args.req("scenarios")) {
                 let (mut seg, _) = Segment::start(&mut out, &mode, &scn["init"]).await;
                 segments += 1;
                 for e in scn["evs"].as_array().expect("evs") {
-                    seg.step(&mut out, e.get("req").unwrap_or(e)).await;
+                    let mut r = e.get("req").unwrap_or(e).clone();
+                    if mode != "run" {
+                        r["drop"] = json!(0);
+                    } else if every > 0 && op_of(&r) == "open" {
+                        opens += 1;
+                        if opens % every == 0 {
+                            r["drop"] = json!(1 + (opens / every) % 2);
+                        }
+                    }
+                    seg.step(&mut out, &r).await;
                 }
                 seg.end();
             }
@@ -620,7 +659,10 @@ async fn main() {
                         1..=3 => t,
                         _ => t + rng.random_range(1..=4),
                     };
-                    let r = random_request(&mut rng, &world, &post, t);
+                    let mut r = random_request(&mut rng, &world, &post, t);
+                    if mode == "run" && op_of(&r) == "open" && rng.random_range(0..8) == 0 {
+                        r["drop"] = json!(rng.random_range(1..=2));
+                    }
                     post = seg.step(&mut out, &r).await;
                     done += 1;
                     if post.get("panic").is_some() {
